@@ -52,6 +52,7 @@ pub fn run(ctx: &Ctx) -> Report {
         if let Some((sig, d)) = res { acc.violation(sig, format!("w:{w}"), d); }
     });
     rep.absorb(r);
+    sim_scale(ctx, &mut rep);
     let all = isa::all_instrs();
     let n = all.len() as u64;
     let r = sweep(ctx, n, 512, |i, acc| {
@@ -66,7 +67,18 @@ pub fn run(ctx: &Ctx) -> Report {
     rep.require(rep.acc.outcomes.len() >= 20, "accepted, illegal-opcode and invalid-format classes all seen");
     rep
 }
+/// The simulator is where decode is applied to fetched words: programs with more distinct instruction words than any cache or table sized
+/// for "small" programs holds (loop bodies of 100..600 pairwise distinct instructions, executed three times), in lock-step with the reference.
+fn sim_scale(ctx: &Ctx, rep: &mut Report) {
+    let r = sweep(ctx, super::c08::S4_SIZES.len() as u64 * 2, 1, |k, acc| {
+        let (n, flags) = (super::c08::S4_SIZES[(k / 2) as usize], (k % 2) * 1);
+        acc.evals += 1; acc.count("long_programs_in_simulator", 1);
+        match super::c08::s4(n, flags, 0) { Ok(steps) => { acc.transitions += steps; acc.nontrivial += 1; } Err((sig, d)) => acc.violation(format!("simulator:{sig}"), format!("s4:{n}:{flags}"), d) }
+    });
+    rep.absorb(r);
+}
 pub fn replay(case: &str) -> Option<String> {
+    if let Some(rest) = case.strip_prefix("s4:") { let (n, f) = rest.split_once(':')?; return super::c08::s4(n.parse().ok()?, f.parse().ok()?, 0).err().map(|(s, d)| format!("[{s}] {d}")); }
     let (k, v) = case.split_once(':')?;
     let w: u16 = v.parse().ok()?;
     match k {
